@@ -230,6 +230,46 @@ func TestC08_P_ReferenceHistories(t *testing.T) {
 				t.Fatalf("C08: reference-written HAMT (fanout %d, %d entries, history %v) read via %s %s: %v", fanout, len(model), keys(classes), reifier, hist, cerr)
 			}
 		}
+		// the caller re-points its link system at another store half way through the life of a reified directory (a cache in
+		// front, then the origin; one CAR, then the next): loads made after the switch go where the link system points NOW,
+		// also those below shards that were loaded before the switch
+		if len(model) > 0 && rapid.IntRange(0, 2).Draw(t, "repointMidway") == 0 {
+			var cerr error
+			must(t, "read a reference HAMT across a storage switch", func() {
+				before, after := NewStore(), NewStore()
+				for c, b := range st.Blocks {
+					before.Put(c, b)
+					after.Put(c, b)
+				}
+				rls := before.LinkSystem()
+				dir, err := loadReified(rls, root, "unixfs")
+				if err != nil {
+					cerr = err
+					return
+				}
+				var mnames []string
+				for n := range model {
+					mnames = append(mnames, n)
+				}
+				sort.Strings(mnames)
+				for i := rapid.IntRange(1, 3).Draw(t, "lookupsBeforeSwitch"); i > 0; i-- {
+					_, _ = dir.LookupByString(mnames[rapid.IntRange(0, len(mnames)-1).Draw(t, "warmName")])
+				}
+				rls.StorageReadOpener = after.openRead
+				before.LoadBudget = len(before.ReadLog()) // (every further read from the first store fails and is noted)
+				if before.LoadBudget == 0 {
+					before.LoadBudget = -1
+				}
+				cerr = checkDirIsMapOpt(dir, model, nonMembers, true)
+				if cerr == nil && before.BudgetExceeded {
+					cerr = fmt.Errorf("a block was requested from the store the link system no longer points at")
+				}
+			})
+			if cerr != nil {
+				t.Fatalf("C08: reference-written HAMT (fanout %d, %d entries) read across a switch of the link system's storage: %v", fanout, len(model), cerr)
+			}
+			ev.Count("storage-switched-midway", 1)
+		}
 		depth := 1
 		if tr, err := st.ShardTree(root); err == nil {
 			depth = tr.Depth()
